@@ -275,11 +275,21 @@ func RunC03(t *Trace, st *Stats) *Violation {
 		if prod == "readonly:mhsorted" || prod == "openreadable:insertion" {
 			profs = []string{sim.ProfA, sim.ProfRSA, sim.ProfRSAB}
 		}
+		dels := []sim.Delivery{{ErrAt: -1}, GenDelivery(r)}
+		if len(l.Payload.Sections) > 1000 {
+			// a very long archive: one stream-like and one seekable profile, one delivery
+			if len(profs) > 3 {
+				profs = []string{profs[0], profs[3]}
+			} else {
+				profs = profs[:1]
+			}
+			dels = dels[1:]
+		}
 		for _, prof := range profs {
 			if prod[:9] == "readorgen" && !sim.IsSeekable(prof) {
 				continue
 			}
-			for di, del := range []sim.Delivery{{ErrAt: -1}, GenDelivery(r)} {
+			for di, del := range dels {
 				st.Evals++
 				st.Steps++
 				st.Fault("delivery:"+prof, 1)
@@ -311,6 +321,14 @@ func GenC03(seed uint64, run int) *Trace {
 	spec := GenImageSpec(r, 14)
 	if r.Chance(1, 40) {
 		LongBlocks(r, &spec)
+	}
+	if r.Chance(1, 1500) {
+		// more sections than any batch size used internally (4096)
+		spec.Blocks = spec.Blocks[:0]
+		for i, n := 0, Pick(r, []int{4097, 4500, 8200}); i < n; i++ {
+			spec.Blocks = append(spec.Blocks, BlkSpec{Kind: "raw", Seed: uint64(3000 + i), Size: i % 3})
+		}
+		spec.NullPad = 0
 	}
 	opts := ReadOpts{StoreID: r.Chance(1, 2)}
 	if r.Chance(1, 5) {
